@@ -212,7 +212,9 @@ func (ssc *defaultStatefulSetControl) truncateHistory(
 	}
 	// collect live revisions and historic revisions
 	for i := range revisions {
-		if !live[revisions[i].Name] {
+		// only revisions the set controls are its history: an orphan that could not be adopted (the set
+		// is being deleted) or a marked revision still owned by the built-in object is not ours to trim
+		if !live[revisions[i].Name] && metav1.IsControlledBy(revisions[i], set) {
 			history = append(history, revisions[i])
 		}
 	}
